@@ -2,7 +2,8 @@
 # Builds the whole Coq development from files on disk (offline). Idempotent.
 set -e
 cd "$(dirname "$0")"
-export PYTHONPATH=/repo PYTHONDONTWRITEBYTECODE=1 PYTHONHASHSEED=0
+export VERIF_REPO=${VERIF_REPO:-/repo}
+export PYTHONPATH=$VERIF_REPO PYTHONDONTWRITEBYTECODE=1 PYTHONHASHSEED=0
 /venv/bin/python -c "
 import sys; sys.path.insert(0,'harness'); import lib
 print('regenerate:', lib.regenerate())
